@@ -628,7 +628,7 @@ def burst_cases(ctx, res, instr, n_msgs, exhaustive_span, per_span, sampled_larg
 
     rng = ctx.rng
     b = Batch(ctx)
-    stats = {"skip": 0, "undetected_outside_class": 0}
+    stats = {"skip": 0, "undetected_outside_class": 0, "nonvacuous": 0}
 
     def one(entries, refs, j, e_body, k, order):
         off, msg = entries[j]
@@ -642,6 +642,7 @@ def burst_cases(ctx, res, instr, n_msgs, exhaustive_span, per_span, sampled_larg
 
         def mon(l, g):
             if g == ["ok"]:
+                stats["nonvacuous"] += 1  # the driver answers `skip`, not `ok`, when crcOk/isBurst do not hold
                 res.count("burst_%s=detected" % order)
             elif g == ["skip"]:
                 stats["skip"] += 1
@@ -732,6 +733,8 @@ def burst_cases(ctx, res, instr, n_msgs, exhaustive_span, per_span, sampled_larg
         res.nontrivial(["burst-large", len(entries[j][1])])
         b.flush()
     b.flush()
+    res.extra["burst_monitor_nonvacuous"] = res.extra.get("burst_monitor_nonvacuous", 0) + stats["nonvacuous"]
+    res.extra["burst_monitor_vacuous_skipped"] = res.extra.get("burst_monitor_vacuous_skipped", 0) + stats["skip"]
     res.extra["bursts_outside_proved_class"] = stats["skip"]
     res.extra["bursts_outside_proved_class_undetected"] = stats["undetected_outside_class"]
 
@@ -772,6 +775,75 @@ def trunc_cases(ctx, res, instr, n_sets, every_cut_below, sampled_cuts):
             b.add("decset %d %s" % (DEPTH, hx(part)), chk)
             res.count("trunc_end=" + end)
         res.nontrivial(["trunc", hx(data)[:400], len(data)])
+        if len(b.lines) > 20000:
+            b.flush()
+    b.flush()
+    res.traces_validated += n_sets
+
+
+def gen_wrapper_clean(rng):
+    """A complete gzip wrapper (either message format) around 0..3 plain messages.
+    -> (wrapper offset, wrapper message bytes, canonical form of what it contains): stored inner
+    offsets under a format-0 wrapper; wrapper offset - last inner + inner under a format-1 wrapper."""
+    magic = rng.choice([0, 1])
+    n = rng.randrange(0, 4)
+    base = rng.randrange(0, 1000)
+    inner, ms = [], []
+    rel = 0
+    for i in range(n):
+        m = gen_msg(rng, 16)
+        stored = rel if magic == 1 else base + rel
+        inner.append((stored, enc_msg(m)))
+        ms.append((stored, m))
+        rel += rng.choice([1, 1, 2])
+    payload = R.gzip_bytes(R.enc_set(inner))
+    attrs = 1 | rng.choice([0, 0, 8])
+    wrapper = R.enc_message(magic, attrs, rng.choice([None, b"k"]), payload, rng.choice([0, 5]) if magic == 1 else None)
+    woff = (base + ms[-1][0]) if (magic == 1 and ms) else base + rel
+    if magic == 1:
+        last = ms[-1][0] if ms else 0
+        contents = [canon_ref(woff - last + o, *m) for o, m in ms]
+    else:
+        contents = [canon_ref(o, *m) for o, m in ms]
+    return woff, wrapper, contents
+
+
+def trunc_wrapped_cases(ctx, res, instr, n_sets):
+    """Every truncation point of sets whose entries are plain messages and gzip wrappers of both
+    formats (possibly empty): the Lean monitor `truncOkG` on the real iterator's outcome."""
+    from afkak.kafkacodec import KafkaCodec as C
+
+    rng = ctx.rng
+    b = Batch(ctx)
+    for _ in range(n_sets):
+        entries, contents = [], []
+        for _ in range(rng.randrange(1, 5)):
+            if rng.random() < 0.5:
+                o, w, cont = gen_wrapper_clean(rng)
+                entries.append((o, w)); contents.append(cont)
+            else:
+                m = gen_msg(rng, 12)
+                o = rng.randrange(0, 10 ** 6)
+                entries.append((o, enc_msg(m))); contents.append([canon_ref(o, *m)])
+        data = R.enc_set(entries)
+        lens = ",".join(str(12 + len(m)) for _, m in entries)
+        cont_s = ";".join("+".join(c) if c else "~" for c in contents)
+        for c in range(len(data) + 1):
+            part = data[:c]
+            instr.reset(budget(len(part)))
+            y, end = drain_set(C._decode_message_set_iter(part))
+            res.evaluations += 1
+            sc = {"kind": "truncg", "entries": [[o, hx(m)] for o, m in entries], "contents": contents, "c": c}
+
+            def mon(l, g, sc=sc, y=y, end=end):
+                if g != ["ok"]:
+                    res.monitor_failures.append({"what": "a truncated message set with gzip wrappers did not yield exactly the contents of the complete entries / the fetch-size-too-small signal", "scenario": dict(sc, impl=show_set(y, end)), "tags": ["truncation-wrong"]})
+
+            b.add("mon-truncg %s %s %d %s %s" % (lens, cont_s, c, ";".join(y) or "-", end), mon)
+            if c % 7 == 0:
+                check_set(b, res, instr, part, sc)
+            res.count("truncg_end=" + end)
+        res.nontrivial(["truncg", hx(data)[:400], len(data)])
         if len(b.lines) > 20000:
             b.flush()
     b.flush()
@@ -1122,6 +1194,7 @@ def sections(ctx, res, f, corpus):
         msgset_cases(ctx, res, instr, n(600, 8000))
         burst_cases(ctx, res, instr, n_msgs=n(6, 24), exhaustive_span=ctx.scale(8, 11), per_span=ctx.scale(2, 6), sampled_large=n(20, 150))
         trunc_cases(ctx, res, instr, n_sets=n(100, 1200), every_cut_below=ctx.scale(400, 1500), sampled_cuts=ctx.scale(20, 100))
+        trunc_wrapped_cases(ctx, res, instr, n_sets=n(40, 500))
         hostile_cases(ctx, res, instr, per_decoder=n(40, 500), random_per_decoder=n(300, 4000))
     grow_cases(ctx, res, n(1500, 20000))
 
@@ -1204,6 +1277,7 @@ def search(ctx, res, broken):
         cost_evidence(ctx, r2, instr)
         burst_cases(ctx, r2, instr, n_msgs=ctx.scale(3, 10), exhaustive_span=ctx.scale(6, 9), per_span=2, sampled_large=ctx.scale(10, 40))
         trunc_cases(ctx, r2, instr, n_sets=ctx.scale(40, 300), every_cut_below=600, sampled_cuts=30)
+        trunc_wrapped_cases(ctx, r2, instr, n_sets=ctx.scale(30, 200))
         hostile_cases(ctx, r2, instr, per_decoder=ctx.scale(20, 120), random_per_decoder=ctx.scale(100, 800))
         msgset_cases(ctx, r2, instr, ctx.scale(100, 1000))
     grow_cases(ctx, r2, ctx.scale(300, 3000))
@@ -1250,6 +1324,18 @@ def replay(ctx, data):
             print("model:", g[1])
             print("monitor:", g[0])
             bad = g[0] not in (["ok"], ["skip"])
+        elif kind == "truncg":
+            from afkak.kafkacodec import KafkaCodec as C
+
+            entries = [(o, bytes.fromhex(m)) for o, m in sc["entries"]]
+            dat = R.enc_set(entries)[: sc["c"]]
+            y, end = drain_set(C._decode_message_set_iter(dat))
+            lens = ",".join(str(12 + len(m)) for _, m in entries)
+            cont_s = ";".join("+".join(c) if c else "~" for c in sc["contents"])
+            g = ctx.model("crc", ["mon-truncg %s %s %d %s %s" % (lens, cont_s, sc["c"], ";".join(y) or "-", end)])
+            print("impl :", show_set(y, end)[:1500])
+            print("monitor:", g[0])
+            bad = g[0] != ["ok"]
         elif kind == "set":
             d = b"" if sc["data"] == "-" else bytes.fromhex(sc["data"])
             r = check_set(b, res, instr, d, sc)
